@@ -3,8 +3,8 @@ from propdefs.common import *
 PROP = {
     "bin": "c07",
     "coq_targets": ["theories/Exec/C07Check"],
-    "n": {"quick": 640, "thorough": 12000},
-    "theorems": [],
+    "n": {"quick": 480, "thorough": 12000},
+    "theorems": ["step_refines", "guards_det_suffices", "steps_refine", "step_frame", "step_deterministic", "no_guessed_value", "stuck_situations", "example_hypotheses"],
     "rule": "one program per (seed,index): 1-2 random IL functions (ilgen::gen_function: 1-6 blocks, loops, empty blocks, 2-/3-way guarded fans, "
             "8/16/32/64-bit loads and stores, mixed-width scalars, big/little-endian paged memory, indirect branches to existing instruction addresses), "
             "random initial scalars and memory, executor::Driver::step run for up to 200 steps with the complete per-step change set recorded; "
@@ -13,8 +13,16 @@ PROP = {
             "non-trivial = at least 3 executed steps including a load, store, fan or branch, or a run ending in one of the property's error kinds; "
             "distinct by hash of the canonical case text",
     "trusted_base": [KERNEL, HARNESS_TB, "paged memory as a byte map (property C08)", "indirect-branch re-lifting (translator oracle)"],
-    "assumptions": [],
-    "partial": [],
-    "level_text": "",
-    "level_note": "",
+    "assumptions": ["paged memory behaves as a byte map (C08)", "program well formed: cfg_inv, wf_expr/wf_op sort rules, wf_names (one width and SSA version per name), "
+                    "guards on every edge of a fan", "widths < 2^64", "no store reaching address 2^64 (top_at)",
+                    "locations stay applicable along the run (closure of forward/from_address: C18)"],
+    "partial": ["re-lifting at indirect-branch targets outside the program: translator oracle, nothing claimed after it",
+                "store whose range ends at or beyond 2^64: excluded (paged::store panics in overflow-checked builds; see notes/C07.md finding 1)",
+                "steps_refine assumes the visited locations apply (run_ok); closure under forward/from_address not proved here"],
+    "level_text": "Unbounded Coq theorems that the Gallina transcription of State::execute / Driver::step refines the executable IL semantics Exec/Sem.v "
+                  "(one step, all step counts, frame, determinism, every error situation reported as Err), plus an in-kernel differential tie of the "
+                  "transcription to executor::Driver::step on generated programs (complete per-step change sets) and an oracle check of every observed "
+                  "transition against Sem.sem_step.",
+    "level_note": "Trusted: Coq kernel + vm_compute; the harness/pretty-printer; paged memory as a byte map (C08); the re-lifting translator; "
+                  "the model is hand-written and tied to the code differentially, not by translation.",
 }
